@@ -184,8 +184,16 @@ def checkReply (cap : Nat) (prev : String) (t : Telegram) (obs : String) :
         let wantI := s!"ident={Spec.identNat pdu}"
         let wantM := s!"master={showOptU8 (Spec.masterOf pdu)}"
         let prevExt := extOfState cap prev
-        let wantE := if cap = 0 then "none" else if Spec.stores cap pdu then bytesToHex (pdu.drop 6) else prevExt
         let ext := (field "ext" e).getD "?"
+        -- stored iff flag + buffer + fit, then equal to pdu[6..]; otherwise nothing of this reply may
+        -- be stored: the previous content is kept (what the code does and `handle_stores` proves) —
+        -- clearing it instead would not contradict the property statement and is left to the
+        -- correspondence check, a truncated or unflagged store is a violation.
+        let extOk :=
+          if cap = 0 then ext = "none"
+          else if Spec.stores cap pdu then ext = bytesToHex (pdu.drop 6)
+          else ext = prevExt ∨ ext = "-"
+        let wantE := if cap = 0 then "none" else if Spec.stores cap pdu then bytesToHex (pdu.drop 6) else prevExt
         let wantB :=
           if ext = "none" then "na" else
           match hexToBytes ext with
@@ -195,7 +203,7 @@ def checkReply (cap : Nat) (prev : String) (t : Telegram) (obs : String) :
           if f ≠ wantF then some ("C17", s!"diag_header: want {wantF}")
           else if i ≠ wantI then some ("C17", s!"diag_header: want {wantI}")
           else if m ≠ wantM then some ("C17", s!"diag_header: want {wantM}")
-          else if ext ≠ wantE then some ("C17", s!"fill_iff: want ext={wantE}")
+          else if !extOk then some ("C17", s!"fill_iff: want ext={wantE}")
           else if b ≠ s!"blocks={wantB}" then some ("C17", s!"blocks_spec: want blocks={wantB}")
           else if d ≠ "dbg=ok" then some ("C17", "blocks_total: Debug formatting panicked")
           else none
